@@ -279,6 +279,114 @@ Demote(x) ==      \* f64 -> f32, round to nearest even on the fraction
             ELSE OK(r \o <<Sign(x)>>)                                  \* overflow by rounding lands exactly on infinity's encoding
 
 
+
+-----------------------------------------------------------------------------
+(* IEEE-754 arithmetic, round to nearest even.  A finite non-zero value is  sig * 2^e  with sig an integer given as bits
+   (any width).  RoundPack rounds such a value to the format: it finds the leading one, drops the bits below the format's
+   quantum (the quantum of a subnormal result is fixed at 2^(emin - fb)) with half / sticky / odd, lets a carry out of the
+   fraction bump the exponent, and turns an exponent beyond the largest finite one into infinity. *)
+Fb(fn) == IF fn = 32 THEN 23 ELSE 52
+BiasOf(fn) == IF fn = 32 THEN 127 ELSE 1023
+EMin(fn) == 1 - BiasOf(fn)                         \* exponent of the smallest normal
+Inf(fn, sg) == MkF(fn, sg, IF fn = 32 THEN 255 ELSE 2047, Zero(Fb(fn)))
+FZero(fn, sg) == MkF(fn, sg, 0, Zero(Fb(fn)))
+TopBit(b) == Len(b) - 1 - Clz(b)                   \* index (from 0) of the leading one; b # 0
+AnyBelow(b, k) == k > 0 /\ ~IsZero(SubSeq(b, 1, IF k > Len(b) THEN Len(b) ELSE k))
+BitAt(b, k) == IF k >= 0 /\ k < Len(b) THEN b[k + 1] ELSE 0
+RoundPack(sg, sig, e, fn) ==
+  IF IsZero(sig) THEN FZero(fn, sg)
+  ELSE LET fb == Fb(fn)
+           E == TopBit(sig) + e                                        \* value in [2^E, 2^(E+1))
+           q == (IF E >= EMin(fn) THEN E ELSE EMin(fn)) - fb           \* exponent of the result's last place
+           drop == q - e                                               \* bits of sig below the last place
+           kept == IF drop <= 0 THEN ShlBy(ZExt(sig, Len(sig) - drop + 1), 0 - drop)
+                   ELSE ShrUBy(sig, drop)
+           half == IF drop >= 1 THEN BitAt(sig, drop - 1) ELSE 0
+           sticky == drop >= 2 /\ AnyBelow(sig, drop - 1)
+           up == half = 1 /\ (sticky \/ BitAt(kept, 0) = 1)
+           \* magnitude bits as one integer: biased exponent field above the fraction; the implicit one of a normal number adds
+           \* exactly one to the exponent field, so  field*2^fb + (kept - 2^fb)  =  (field - 1)*2^fb + kept
+           field == IF E >= EMin(fn) THEN E - EMin(fn) + 1 ELSE 0
+           w == fn + 14
+           base == Add(Wrap(ZExt(kept, Len(kept) + w), w), ShlBy(FromNat(IF field = 0 THEN 0 ELSE field - 1, w), fb))
+           r == IF up THEN Add(base, One(w)) ELSE base
+           expField == ToNat(SubSeq(r, fb + 1, fb + 12))               \* wide enough for both formats
+       IN IF expField >= (IF fn = 32 THEN 255 ELSE 2047) THEN Inf(fn, sg) ELSE Wrap(r, fn - 1) \o <<sg>>
+
+(* sig (with the implicit one) and the exponent of its last place, for a finite non-zero x *)
+SigOf(x) == Frac(x) \o <<IF ExpF(x) = 0 THEN 0 ELSE 1>>
+ExpOfLsb(x) == (IF ExpF(x) = 0 THEN 1 ELSE ExpF(x)) - Bias(x) - FracBits(x)
+
+FAdd(x, y0, sub) ==
+  LET fn == Len(x)  y == IF sub THEN FNeg(y0) ELSE y0 IN
+  IF IsNaN(x) \/ IsNaN(y) THEN NaNResult
+  ELSE IF IsInf(x) \/ IsInf(y) THEN (IF IsInf(x) /\ IsInf(y) /\ Sign(x) # Sign(y) THEN NaNResult ELSE OK(IF IsInf(x) THEN x ELSE y))
+  ELSE IF IsFZero(x) /\ IsFZero(y) THEN OK(FZero(fn, IF Sign(x) = 1 /\ Sign(y) = 1 THEN 1 ELSE 0))
+  ELSE IF IsFZero(x) THEN OK(y) ELSE IF IsFZero(y) THEN OK(x)
+  ELSE LET fb == Fb(fn)
+           swap == ExpOfLsb(x) < ExpOfLsb(y)
+           a == IF swap THEN y ELSE x   b == IF swap THEN x ELSE y        \* a has the larger exponent
+           d0 == ExpOfLsb(a) - ExpOfLsb(b)
+           \* a far smaller operand only matters as "something below": keep it just below three guard bits
+           far == d0 > fb + 4
+           d == IF far THEN fb + 4 ELSE d0
+           w == 2 * fb + 10
+           A == ShlBy(ZExt(SigOf(a), w), d)
+           B == IF far THEN One(w) ELSE ZExt(SigOf(b), w)
+           e == ExpOfLsb(a) - d
+       IN IF Sign(a) = Sign(b) THEN OK(RoundPack(Sign(a), Add(A, B), e, fn))
+          ELSE IF A = B THEN OK(FZero(fn, 0))                              \* exact cancellation: +0 under round to nearest
+          ELSE IF LtU(B, A) THEN OK(RoundPack(Sign(a), Sub(A, B), e, fn)) ELSE OK(RoundPack(Sign(b), Sub(B, A), e, fn))
+
+FMul(x, y) ==
+  LET fn == Len(x)  sg == (Sign(x) + Sign(y)) % 2 IN
+  IF IsNaN(x) \/ IsNaN(y) THEN NaNResult
+  ELSE IF (IsInf(x) /\ IsFZero(y)) \/ (IsFZero(x) /\ IsInf(y)) THEN NaNResult
+  ELSE IF IsInf(x) \/ IsInf(y) THEN OK(Inf(fn, sg))
+  ELSE IF IsFZero(x) \/ IsFZero(y) THEN OK(FZero(fn, sg))
+  ELSE LET w == 2 * Fb(fn) + 4 IN
+       OK(RoundPack(sg, Mul(ZExt(SigOf(x), w), ZExt(SigOf(y), w)), ExpOfLsb(x) + ExpOfLsb(y), fn))
+
+(* normalised significand: leading one at position fb, exponent adjusted *)
+NormSig(x) == LET sgf == SigOf(x)  sh == FracBits(x) - TopBit(sgf) IN [s |-> ShlBy(sgf, sh), e |-> ExpOfLsb(x) - sh]
+FDiv(x, y) ==
+  LET fn == Len(x)  sg == (Sign(x) + Sign(y)) % 2 IN
+  IF IsNaN(x) \/ IsNaN(y) THEN NaNResult
+  ELSE IF (IsInf(x) /\ IsInf(y)) \/ (IsFZero(x) /\ IsFZero(y)) THEN NaNResult
+  ELSE IF IsInf(x) \/ IsFZero(y) THEN OK(Inf(fn, sg))
+  ELSE IF IsInf(y) \/ IsFZero(x) THEN OK(FZero(fn, sg))
+  ELSE LET fb == Fb(fn)  nx == NormSig(x)  ny == NormSig(y)
+           w == 2 * fb + 8
+           num == ShlBy(ZExt(nx.s, w), fb + 3)                             \* quotient with fb+3 or fb+4 significant bits
+           qr == DivModU(num, ZExt(ny.s, w))
+           sig == ShlBy(qr[1], 1)                                          \* room for the sticky bit of the remainder
+           sig2 == IF IsZero(qr[2]) THEN sig ELSE [sig EXCEPT ![1] = 1]
+       IN OK(RoundPack(sg, sig2, nx.e - ny.e - (fb + 3) - 1, fn))
+
+(* integer square root, bit by bit from the top: the largest r with r * r <= n *)
+RECURSIVE ISqrt(_, _, _)
+ISqrt(n, r, k) == IF k < 0 THEN r
+                  ELSE LET t == [r EXCEPT ![k + 1] = 1] IN
+                       ISqrt(n, IF LtU(n, Mul(ZExt(t, Len(n)), ZExt(t, Len(n)))) THEN r ELSE t, k - 1)
+FSqrt(x) ==
+  LET fn == Len(x) IN
+  IF IsNaN(x) THEN NaNResult
+  ELSE IF IsFZero(x) THEN OK(x)
+  ELSE IF Sign(x) = 1 THEN NaNResult
+  ELSE IF IsInf(x) THEN OK(x)
+  ELSE LET fb == Fb(fn)  nx == NormSig(x)
+           \* value = s * 2^e with s in [2^fb, 2^(fb+1)); shift so that the exponent is even and the root has fb+3 bits
+           k0 == fb + 6
+           k == IF (nx.e - k0) % 2 = 0 THEN k0 ELSE k0 + 1
+           w == 2 * fb + 10
+           n == ShlBy(ZExt(nx.s, w), k)
+           hw == fb + 5                                                    \* bits of the root
+           r == ISqrt(n, Zero(hw), hw - 1)
+           exact == Mul(ZExt(r, w), ZExt(r, w)) = n
+           sig == ShlBy(ZExt(r, hw + 1), 1)
+           sig2 == IF exact THEN sig ELSE [sig EXCEPT ![1] = 1]
+       IN OK(RoundPack(0, sig2, (nx.e - k) \div 2 - 1, fn))
+
 -----------------------------------------------------------------------------
 (* 128-bit vectors: 128 bits, lane 0 in the lowest bits.  Lane-wise instructions whose lane function is one of the
    scalar definitions above are checked through those (the driver packs scalar cases into lanes); here are the
@@ -371,6 +479,9 @@ Eval(c) ==
     [] t \in {"f32", "f64"} /\ op \in {"min", "max"} -> FloatMinMax(op, a, b)
     [] t \in {"f32", "f64"} /\ op \in {"ceil", "floor", "trunc", "nearest"} -> RoundInt(op, a)
     [] t \in {"f32", "f64"} /\ op = "abs" -> OK(FAbs(a)) [] t \in {"f32", "f64"} /\ op = "neg" -> OK(FNeg(a))
+    [] t \in {"f32", "f64"} /\ op = "add" -> FAdd(a, b, FALSE) [] t \in {"f32", "f64"} /\ op = "sub" -> FAdd(a, b, TRUE)
+    [] t \in {"f32", "f64"} /\ op = "mul" -> FMul(a, b) [] t \in {"f32", "f64"} /\ op = "div" -> FDiv(a, b)
+    [] t \in {"f32", "f64"} /\ op = "sqrt" -> FSqrt(a)
     [] t \in {"f32", "f64"} /\ op = "copysign" -> OK([a EXCEPT ![Len(a)] = b[Len(b)]])
     [] op = "trunc_s32" -> TruncToInt(a, 32, TRUE, FALSE) [] op = "trunc_u32" -> TruncToInt(a, 32, FALSE, FALSE)
     [] op = "trunc_s64" -> TruncToInt(a, 64, TRUE, FALSE) [] op = "trunc_u64" -> TruncToInt(a, 64, FALSE, FALSE)
